@@ -163,8 +163,13 @@ pub fn families(focus: Focus) -> Vec<Box<dyn Family>> {
         move |cfg| if cfg.tiny { 2 } else { cfg.tier.pick(24, 160) },
         move |idx, cfg, out| {
             let mut rng = Rng::for_case(cfg.seed, "captured.far", idx);
+            let lcs_sparse = idx == 5 && !cfg.tiny && focus == Focus::C03;
             let (a, b) = if cfg.tiny {
                 gen::asymmetric_replace(&mut rng, 2, 2, 5, 1)
+            } else if lcs_sparse {
+                // LCS far above 16384 x 16384 cells: two unrelated sequences sharing ONE item
+                let (n, m) = (rng.range(16_390, 16_450), rng.range(16_390, 16_450));
+                gen::landmark_pair(&mut rng, n, m, 1, 0)
             } else if idx % 2 == 0 {
                 let hi = cfg.tier.pick(5000, 9000);
                 let (n, m) = (rng.range(2500, hi), rng.range(2500, hi));
@@ -177,9 +182,31 @@ pub fn families(focus: Focus) -> Vec<Box<dyn Family>> {
                 let (head, tail) = (rng.below(300), rng.below(300));
                 gen::asymmetric_replace(&mut rng, head, tail, l1, l2)
             };
-            let alg = if focus == Focus::C03 || rng.chance(1, 2) { Algorithm::Myers } else { Algorithm::Patience };
+            let alg = if lcs_sparse { Algorithm::Lcs } else if focus == Focus::C03 || rng.chance(1, 2) { Algorithm::Myers } else { Algorithm::Patience };
             out.sample(|| format!("alg={} N={} M={} old={} new={}", alg_name(alg), a.len(), b.len(), fmt_seq(&a), fmt_seq(&b)));
             out.count("far_cases");
+            if lcs_sparse {
+                out.count("lcs_cases_above_16384x16384_sparse");
+                // one shared item, everything else distinct: the optimum is known by construction
+                struct ResetKnown;
+                impl Drop for ResetKnown {
+                    fn drop(&mut self) {
+                        KNOWN_OPTIMUM.with(|k| k.set(None));
+                    }
+                }
+                let _reset = ResetKnown;
+                let shared = a.iter().filter(|x| **x >= 30_000_000).count().min(1);
+                KNOWN_OPTIMUM.with(|k| k.set(Some(a.len() + b.len() - 2 * shared)));
+                if focus == Focus::C03 {
+                    captured_case(focus, cfg, alg, &a, 0..a.len(), &b, 0..b.len(), 0, false, out);
+                } else {
+                    // C02: validity without the expiry enumeration (each run costs seconds)
+                    out.eval();
+                    let r = capture_once(alg, &a, 0..a.len(), &b, 0..b.len(), 0, None, far_deadline());
+                    judge(focus, cfg, alg, &a, &(0..a.len()), &b, &(0..b.len()), 0, None, &r, out);
+                }
+                return;
+            }
             captured_case(focus, cfg, alg, &a, 0..a.len(), &b, 0..b.len(), rng.below(3) as u8, false, out);
         },
     ));
@@ -284,8 +311,25 @@ pub fn families(focus: Focus) -> Vec<Box<dyn Family>> {
         },
     ));
     v.push(family(
+        "structured",
+        "inputs with special STRUCTURE: all-equal, alternating, period 3, palindromes (with / without a centre), reversal, prefix, suffix, rotation, doubled, interleaving, phase-shifted alternation, every item doubled, halves swapped; lengths 0..40 (and up to 400 for Myers/Patience) x 3 algorithms; deadline none + expiry points (not C03)",
+        false,
+        8,
+        move |cfg| cfg.n(6_000, 120_000),
+        move |idx, cfg, out| {
+            let mut rng = Rng::for_case(cfg.seed, "captured.structured", idx);
+            let alg = ALGS[rng.below(3)];
+            let alg = if focus == Focus::C03 && alg == Algorithm::Patience { Algorithm::Myers } else { alg };
+            let max = if cfg.tiny { 6 } else if alg == Algorithm::Lcs || idx % 4 != 0 { 40 } else { 400 };
+            let (a, b, kind) = gen::structured_pair(&mut rng, max);
+            let (a, b) = if rng.chance(1, 2) { (a, b) } else { (b, a) };
+            out.sample(|| format!("alg={} structure={} old={} new={}", alg_name(alg), kind, fmt_seq(&a), fmt_seq(&b)));
+            captured_case(focus, cfg, alg, &a, 0..a.len(), &b, 0..b.len(), rng.below(3) as u8, a.len() + b.len() <= 40, out);
+        },
+    ));
+    v.push(family(
         "stacks_and_lookups",
-        "the same diffs through other capture pipelines, which must give exactly the ops of capture_diff: (a) Compact::new(Replace::new(&mut capture), ..) with a BORROWED capture hook, (b) capture_diff through IdentifyDistinct::<u16|u32> lookups of sub-ranges with DIFFERENT non-zero starts (ops are judged against the caller's ranges); seeded random pairs up to 60 items x 3 algorithms",
+        "the same diffs through other capture pipelines, which must give exactly the ops of capture_diff: (a) Compact::new(Replace::new(&mut capture), ..) with a BORROWED capture hook, (b) capture_diff through IdentifyDistinct::<u16|u32> lookups of sub-ranges with DIFFERENT non-zero starts (ops are judged against the caller's ranges), (c) a doubled Replace adapter, (d) the captured ops replayed with apply_to_hook into a fresh Replace<Capture>; seeded random pairs up to 60 items x 3 algorithms",
         false,
         16,
         move |cfg| cfg.n(6_000, 120_000),
@@ -321,6 +365,28 @@ pub fn families(focus: Focus) -> Vec<Box<dyn Family>> {
                             similar::algorithms::diff(alg, &mut d, &pa[..], or.clone(), &pb[..], nr.clone()).unwrap();
                         }
                         cap.into_ops()
+                    } else if which == 14 {
+                        // (e) a buffering adapter passed BY REFERENCE as the inner stage
+                        let mut r = similar::algorithms::Replace::new(similar::algorithms::Capture::new());
+                        {
+                            let mut c = similar::algorithms::Compact::new(&mut r, &pa[..], &pb[..]);
+                            similar::algorithms::diff(alg, &mut c, &pa[..], or.clone(), &pb[..], nr.clone()).unwrap();
+                        }
+                        r.into_inner().into_ops()
+                    } else if which == 12 {
+                        // (c) a doubled Replace adapter
+                        let mut d = similar::algorithms::Compact::new(similar::algorithms::Replace::new(similar::algorithms::Replace::new(similar::algorithms::Capture::new())), &pa[..], &pb[..]);
+                        similar::algorithms::diff(alg, &mut d, &pa[..], or.clone(), &pb[..], nr.clone()).unwrap();
+                        d.into_inner().into_inner().into_inner().into_ops()
+                    } else if which == 13 {
+                        // (d) the captured ops replayed (apply_to_hook) into a fresh Replace<Capture>
+                        let ops = capture_diff(alg, &pa[..], or.clone(), &pb[..], nr.clone());
+                        let mut r = similar::algorithms::Replace::new(similar::algorithms::Capture::new());
+                        for op in &ops {
+                            op.apply_to_hook(&mut r).unwrap();
+                        }
+                        similar::algorithms::DiffHook::finish(&mut r).unwrap();
+                        r.into_inner().into_ops()
                     } else if idx % 2 == 0 {
                         // (b) through the integer mapping
                         let h = similar::algorithms::IdentifyDistinct::<u16>::new(&pa[..], or.clone(), &pb[..], nr.clone());
@@ -334,7 +400,13 @@ pub fn families(focus: Focus) -> Vec<Box<dyn Family>> {
                 r.map(|ops| Run { ops, swaps: vh::swaps() - swaps0, probes: 0 })
             };
             let eq = |o: usize, n: usize| pa[o] == pb[n];
-            for (what, which) in [("Compact<Replace<&mut Capture>>", 10u8), ("capture_diff through IdentifyDistinct lookups", 11u8)] {
+            for (what, which) in [
+                ("Compact<Replace<&mut Capture>>", 10u8),
+                ("capture_diff through IdentifyDistinct lookups", 11u8),
+                ("Compact<Replace<Replace<Capture>>>", 12u8),
+                ("captured ops replayed via apply_to_hook into Replace<Capture>", 13u8),
+                ("Compact<&mut Replace<Capture>>", 14u8),
+            ] {
                 out.eval();
                 let run = pipeline(which, false);
                 if focus == Focus::C11 {
@@ -535,6 +607,9 @@ fn ctx(alg: Algorithm, a: &[u32], or: &Range<usize>, b: &[u32], nr: &Range<usize
             1 => "capture_diff_slices(_deadline)",
             10 => "Compact<Replace<&mut Capture>> (borrowed hook)",
             11 => "capture_diff through IdentifyDistinct lookups",
+            12 => "Compact<Replace<Replace<Capture>>>",
+            13 => "captured ops replayed via apply_to_hook into Replace<Capture>",
+            14 => "Compact<&mut Replace<Capture>> (buffering adapter by reference)",
             _ => "TextDiff::configure().diff_slices",
         },
         fmt_seq(a),
